@@ -42,6 +42,9 @@ def trees():
         "y/sub/REUSE.toml": TOML + 'SPDX-License-Identifier = "ISC"\n',
         "top.py": "t = 1\n", "x/f.py": "# SPDX-FileCopyrightText: 2012 Eff\nf = 1\n", "x/sub/g.py": "g = 1\n",
         "y/h.py": "# SPDX-License-Identifier: Zlib\nh = 1\n", "y/sub/i.py": "i = 1\n", "z/j.py": "j = 1\n",
+        # directory names that sort before '.', '..' and 'REUSE.toml'
+        "-v/REUSE.toml": TOML + 'SPDX-License-Identifier = "ISC"\n', "-v/k.py": "# SPDX-FileCopyrightText: 2013 Kay\nk = 1\n",
+        "(app)/REUSE.toml": TOML + 'SPDX-FileCopyrightText = "2014 App"\nSPDX-License-Identifier = "0BSD"\n', "(app)/l.py": "l = 1\n",
         "LICENSES/MIT.txt": "mit\n", "LICENSES/0BSD.txt": "0bsd\n", "LICENSES/ISC.txt": "isc\n",
     }
     t["dep5"] = {".reuse/dep5": ("Format: https://www.debian.org/doc/packaging-manuals/copyright-format/1.0/\nUpstream-Name: x\n\n"
@@ -61,7 +64,8 @@ def trees():
                          "LICENSES/sub/Zlib.txt": "zlib\n", "LICENSES/GPL-2.0.txt": "deprecated\n", "LICENSES/MIT.txt.license": "SPDX-License-Identifier: CC0-1.0\n"}
     t["case-variants"] = {"a.py": H, "b/c.py": H.replace("MIT", "mit"), "b/d.py": H.replace("MIT", "MIT OR 0bsd"), "e.py": H.replace("MIT", "0BSD OR MIT"),
                           "LICENSES/MIT.txt": "mit\n", "LICENSES/0BSD.txt": "0bsd\n"}
-    t["git"] = {"a.py": H, "ignored.log": "x\n", "d/b.py": H, "d/c.log": "x\n", ".gitignore": "*.log\n", "LICENSES/MIT.txt": "mit\n"}
+    t["git"] = {"a.py": H, "ignored.log": "x\n", "d/b.py": H, "d/c.log": "x\n", ".gitignore": "*.log\nbuild/\ndist/\ncache/\n", "LICENSES/MIT.txt": "mit\n",
+                "build/out.py": "no info\n", "dist/pkg.py": "no info\n", "cache/c.py": "no info\n"}
     t["git-submodule"] = {"a.py": H, "src/b.py": H, "LICENSES/MIT.txt": "mit\n"}
     return t
 
@@ -150,7 +154,7 @@ def n_jobs(name):
     if name == "git-submodule":
         return 3
     return sum(1 for p in TREES[name] if not p.startswith(("LICENSES/", ".reuse/")) and not p.endswith(("REUSE.toml", ".license"))
-               and p not in ("ignored.log", "d/c.log"))
+               and p not in ("ignored.log", "d/c.log", "build/out.py", "dist/pkg.py", "cache/c.py"))
 
 
 def dir_entries(name):
